@@ -205,7 +205,6 @@ for n, d in [
     ("c08_has_open_handles", "has_open_handles() == dirs non-empty || files non-empty"),
 ]:
     H("C08", "vk_vm", n, desc=d, bounds="tables<=2 each, handles symbolic", timeout=900)
-H("C08", "vk_vm", "c08_lock_reentrancy", tier="thorough", desc="each of the 22 result-returning public methods called from an iterate_dir callback returns LockError; tables and device unchanged", bounds="one-entry FAT16 root, one open volume/dir/file", timeout=900, cost=3, mem_gb=20)
 
 # ---------------------------------------------------------------------------
 # FatVolume-level harnesses shared by C03 C04 C05 C06 C10 C16
@@ -492,3 +491,15 @@ for n, t, pr in [("c01_gwrite_extend_one", "quick", "C01"), ("c01_gwrite_extend_
 H("C03", "vk_fsop", "c01_gwrite_extend_stale_cursor", desc=_gw + "chain stays well formed when the cursor cache is several clusters behind the write position", bounds="see C01", kani_args=["-Z", "stubbing"], timeout=2400, cost=4, mem_gb=30)
 
 H("C05", "vk_fsop", "c05_delete_releases_clusters", desc="delete_file_in_dir of a closed 2-cluster file (directory functions scripted, ghost FAT): afterwards its clusters are free", bounds="chain 3->5, other clusters used", kani_args=["-Z", "stubbing"], timeout=900, cost=2, mem_gb=16)
+
+H("C05", "vk_fat", "c05_free_chain_abstract_fat", desc="free_cluster_chain (delete) over the ghost FAT: any well-formed chain of 1..4 clusters freed entirely, frame, free count += length; unallocated / out-of-range start is a no-op", bounds="FAT of 4 clusters and chain topology symbolic, record symbolic", kani_args=_stubfat, timeout=900, cost=2, mem_gb=16)
+H("C16", "vk_fat", "c05_free_chain_abstract_fat", desc="free-space record arithmetic of free_cluster_chain (delete)", bounds="see C05", kani_args=_stubfat, timeout=900, cost=2, mem_gb=16)
+
+for pr in ("C03", "C02", "C04"):
+    H(pr, "vk_fat", "c03_make_dir_root16", desc="make_dir in a FAT16 root: parent entry with a previously free, now end-of-chain cluster; '.' -> itself, '..' -> 0 (root), rest of the cluster zero; other entries, FAT entries and data clusters (incl. the one physically after the new directory) unchanged", bounds="other files' data and the stale free cluster fully symbolic", unwindset=UW_CRASH, timeout=1500, cost=3, mem_gb=24)
+H("C07", "vk_vm", "c08_limits_full_tables", desc="an open refused because the table is full happens before any side effect: nothing read or written, tables unchanged (all modes)", bounds="see C08", timeout=900)
+
+UW_LOCK = [("iterate_fat16", r"chunks_exact", 4), ("iterate_fat16", r".", 3)]
+for n, t in [("c08_lock_file_queries", "quick"), ("c08_lock_close_flush", "quick"), ("c08_lock_read_write", "quick"), ("c08_lock_dir_volume_handles", "quick"),
+             ("c08_lock_open_volume", "quick"), ("c08_lock_dir_listing", "quick"), ("c08_lock_dir_mutation", "quick"), ("c08_lock_make_dir", "quick")]:
+    H("C08", "vk_vm", n, tier=t, desc="result-returning methods called from inside an iterate_dir callback fail with LockError and change nothing", bounds="one-entry FAT16 root; methods: see harness name", unwindset=UW_LOCK, timeout=1800, cost=3, mem_gb=24)
